@@ -378,6 +378,10 @@ Apply(h, o) ==
     [] o.op = "NewGoMap" ->     \* the caller builds a Go map[string]any from key/value pairs
          LET h1 == Append(h, EmptyCell("GM"))
          IN {Res(Ok(Ref(Len(h1))), SetPairs(h1, Len(h1), o.vs)[1])}
+    \* observers and fluent no-ops that recorded executions exercise on large containers
+    [] o.op = "Equals" -> {Res(Ok(Bool(DeepEq(h, o.r, o.j))), h)}
+    [] o.op = "ForEach" -> {Res(Ok(Ref(o.r)), h)}       \* any ForEach variant (o.i) with a callback that does nothing
+    [] o.op = "NativeCheck" -> {Res(Ok(Bool(TRUE)), h)} \* Native*(r) holds no container at any depth and equals the content
     [] o.op \in {"Clone", "CloneO"} ->
          LET s == CopyVal(h, Ref(o.r), CloneF) IN {Res(Ok(s[2]), s[1])}
     [] o.op \in {"NativeSlice", "NativeDict"} ->
